@@ -15,7 +15,7 @@ Judge_parse(c) ==
           << Cl("C11.accept", "ok"),
              Tri("C11.names", NameSet(c.res.names) = DOMAIN P.st.names),
              \* the returned schema carries full names and resolved references: re-parsing it (no namespace context left) gives the same tree
-             Tri("C11.tree", R.ok /\ R.t = P.t) >>
+             IF NullNsInside(P.t, <<>>) THEN Cl("C11.tree", "unspec") ELSE Tri("C11.tree", R.ok /\ R.t = P.t) >>
   ELSE IF P.kind = "other" THEN << Cl("C11.reject", "unspec") >>
   ELSE << Tri("C11.reject." \o P.kind, IsParseError(c.res)) >>
 
@@ -29,14 +29,16 @@ Judge_canon(c) ==
            P2 == Parse(c.tree2)
            o == [strict |-> FALSE, tuples |-> TRUE]
        IN << Tri("C13.text", c.text = want),
-             Tri("C13.fixpoint", c.text2 = c.text /\ P2.ok /\ CanonText(CanonTree(P2.t)) = want),
+             IF NullNsInside(P.t, <<>>) THEN Cl("C13.fixpoint", "unspec")
+             ELSE Tri("C13.fixpoint", c.text2 = c.text /\ P2.ok /\ CanonText(CanonTree(P2.t)) = want),
              \* the canonical form is itself a schema describing the same encoding
-             Tri("S.canon_same_tree", P2.ok /\ CanonTree(P2.t) = CanonTree(P.t)),
+             IF NullNsInside(P.t, <<>>) THEN Cl("C13.valid_schema", "unspec")
+             ELSE Tri("C13.valid_schema", P2.ok /\ CanonTree(P2.t) = CanonTree(P.t)),
              IF Len(c.variants) = 0 THEN Cl("C13.invariant", "skip")
              ELSE IF \E i \in 1..Len(c.variants) : LET V == Parse(c.variants[i].schema) IN ~V.ok \/ CanonTree(V.t) # CanonTree(P.t)
                   THEN Cl("H.cosmetic", "fail")
              ELSE Tri("C13.invariant", \A i \in 1..Len(c.variants) : c.variants[i].text = c.text),
-             IF Len(c.enc) = 0 \/ ~P2.ok THEN Cl("C13.same_encoding", "skip")
+             IF Len(c.enc) = 0 \/ ~P2.ok \/ NullNsInside(P.t, <<>>) THEN Cl("C13.same_encoding", "skip")
              ELSE Tri("C13.same_encoding",
                       \A i \in 1..Len(c.enc) :
                          LET e == c.enc[i]
